@@ -95,7 +95,7 @@ def run(ck):
     ck.who_writes("E2.who-sends-virgin", facts, SENDING, {MX + "prepEchoing": "204/bypass echo", MX + "prepPartialBodyEchoing": "206 use-original-body"},
                   value=lambda v: v == VIRGIN, min_writers=2, why="(virgin body bytes would be sent in another sending state)")
     em = facts.fn(MX + "echoMore")
-    ck.require_fact("E2.echo-state", ck.flow(em), ev_call("BodyPipe::putMoreData"), E.m_cmp("==", E.m_is_mem(SENDING), E.m_const(VIRGIN)), True, "putMoreData()",
+    ck.require_fact("E2.echo-state", ck.flow(em), ev_call("BodyPipe::putMoreData"), (E.m_cmp("==", E.m_is_mem(SENDING), E.m_const(VIRGIN)) | E.m_cmp("==", E.m_const(VIRGIN), E.m_is_mem(SENDING))), True, "putMoreData()",
                     why="(virgin bytes would be appended to an adapted body)")
     ck.who_calls("E2.who-part-echoes", facts, MX + "prepPartialBodyEchoing", {MX + "parseBody": "206 use-original-body"}, min_callers=1)
     fl = ck.flow(pb)
